@@ -94,6 +94,7 @@ Inductive op :=
 | Copy (bk k sb sk : bytes) | List (bk : bytes) (prefix start_after : option bytes)
 | MpuCreate (alias : N) (cred : option bytes) (bk k : bytes) (m : option kv)
 | MpuPart (alias : N) (cred : option bytes) (n : Z) (d : bytes) (fault : bool)
+| MpuPartCopy (alias : N) (cred : option bytes) (n : Z) (sb sk : bytes) (range : option bytes)
 | MpuComplete (alias : N) (cred : option bytes) (bk k : bytes) (ns : list Z)
 | MpuAbort (alias : N) (cred : option bytes) (bk k : bytes).
 
@@ -131,6 +132,36 @@ Fixpoint gather (min_part : N) (total : Z) (cnt : Z) (ns : list Z) (parts : list
   end.
 
 Definition slice (d : bytes) (s e : N) : bytes := firstn (N.to_nat (e - s)) (skipn (N.to_nat s) d).
+
+(* the x-amz-copy-source-range of UploadPartCopy (parsed by hand in s3.rs, not by Range::parse): "bytes=" first "-" [last];
+   u64::from_str accepts one leading '+'; the half-open interval [first, last + 1) must lie inside the source *)
+Definition parse_u64_rust (s : bytes) : option N :=
+  match s with 43 :: r => Range.parse_u64_full r | _ => Range.parse_u64_full s end.
+Definition parse_copy_range (h : bytes) (file_len : N) : (N * N) + string :=
+  match strip_prefix (b "bytes=") h with
+  | None => inr "InvalidArgument"%string
+  | Some rest =>
+      match split_on 45 rest [] with
+      | [first; last] =>
+          match parse_u64_rust first with
+          | None => inr "InvalidArgument"%string
+          | Some st =>
+              match (match last with
+                     | [] => if file_len =? 0 then inr "InvalidRange"%string else inl (file_len - 1)
+                     | _ => match parse_u64_rust last with Some e => inl e | None => inr "InvalidArgument"%string end
+                     end) with
+              | inr e => inr e
+              | inl en => if (en <? st) || (file_len <=? en) then inr "InvalidRange"%string else inl (st, en + 1)
+              end
+          end
+      | _ => inr "InvalidArgument"%string
+      end
+  end.
+Definition part_copy_answer (d : bytes) (range : option bytes) : bytes + string :=
+  match range with
+  | None => inl d
+  | Some h => match parse_copy_range h (N.of_nat (length d)) with inl (st, en) => inl (slice d st en) | inr e => inr e end
+  end.
 
 Definition step (min_part : N) (s : store) (o : op) : store * bytes :=
   match o with
@@ -219,6 +250,22 @@ Definition step (min_part : N) (s : store) (o : op) : store * bytes :=
                                                  u_parts := aupdate zeqb n d (u_parts u) |} (s_uploads s)),
            b "ok:" ++ etag d)
       end
+  | MpuPartCopy alias cred n sb sk range =>
+      match owned s alias cred with
+      | None => (s, err "AccessDenied")
+      | Some u =>
+          match lookup s sb sk with
+          | None => (s, err "NoSuchKey")
+          | Some ob =>
+              match part_copy_answer (o_data ob) range with
+              | inr e => (s, err e)
+              | inl d =>
+                  (set_uploads s (aupdate N.eqb alias {| u_owner := u_owner u; u_bucket := u_bucket u; u_key := u_key u; u_meta := u_meta u;
+                                                         u_parts := aupdate zeqb n d (u_parts u) |} (s_uploads s)),
+                   b "ok:" ++ etag d)
+              end
+          end
+      end
   | MpuComplete alias cred bk k ns =>
       match owned s alias cred with
       | None => (s, err "AccessDenied")
@@ -247,3 +294,12 @@ Fixpoint run (min_part : N) (s : store) (ops : list op) : store * list bytes :=
 
 Definition run_outputs (min_part : N) (ops : list op) : bytes :=
   join [10] (snd (run min_part empty_store ops)).
+
+(* the final state, for the state-level comparison with the directory tree *)
+Definition show_store (s : store) : bytes :=
+  b "buckets=" ++ join [44] (sort_by bleb (s_buckets s))
+  ++ b "|objects=" ++ join [44] (sort_by bleb (map (fun e => show_hex (fst (fst e)) ++ [47] ++ show_hex (snd (fst e)) ++ [58]
+                                                       ++ show_N (N.of_nat (length (o_data (snd e))))
+                                                       ++ (match o_meta (snd e) with Some _ => b ":m" | None => [] end)) (s_objects s)))
+  ++ b "|uploads=" ++ show_N (N.of_nat (length (s_uploads s))).
+Definition run_state (min_part : N) (ops : list op) : bytes := show_store (fst (run min_part empty_store ops)).
